@@ -47,7 +47,9 @@ def main():
         res['demo_with_change_rc'] = rc
         res['demo_with_change_tail'] = o[-300:]
         env = dict(os.environ, VERIF_REPO=scratch)
-        rc, o = sh(f'./check {pid} --tier quick', cwd='/verif', env=env, timeout=3000)
+        tier = os.environ.get('SEED_TIER', 'quick')
+        res['check_tier'] = tier
+        rc, o = sh(f'./check {pid} --tier {tier}', cwd='/verif', env=env, timeout=6000)
         res['check_with_change_rc'] = rc
         res['check_with_change_lines'] = [l[:300] for l in o.splitlines() if l.startswith(('VIOLATION', '  signature', 'HARNESS', pid + ' '))][:12]
         sh('git checkout -- .', cwd=scratch)
